@@ -11,7 +11,7 @@
 (* I: the observed post-state is Message.tla's step applied to the         *)
 (*   observed pre-state (single-step conformance, incl. retained bytes).   *)
 (***************************************************************************)
-EXTENDS TraceBase, Message, StunAuth
+EXTENDS TraceBase, Message, StunAuth, StunAttrs
 
 VARIABLE l
 
@@ -21,7 +21,7 @@ ToMsg(s) == Msg(s.method, s.class, s.length, s.tid,
                 [i \in 1..Len(s.attrs) |-> A(s.attrs[i][1], s.attrs[i][2], s.attrs[i][4])], s.raw, s.spare)
 
 Building(op) == op.op \notin {"decode", "write"}
-AddLike(op) == op.op \in {"add", "integrity", "fingerprint"}
+AddLike(op) == op.op \in {"add", "integrity", "fingerprint", "username", "xoraddr", "mapped", "errorcode", "unknown"}
 
 ModelStep(m, op) ==
   CASE op.op = "build"       -> WriteHeader(Reset(m))
@@ -33,6 +33,11 @@ ModelStep(m, op) ==
     [] op.op = "settid"      -> SetTID(m, op.data)
     [] op.op = "integrity"   -> AddIntegrity(m, F(op, "data", <<>>), HmacSha1)
     [] op.op = "fingerprint" -> AddFingerprint(m, FpValue)
+    [] op.op = "username"    -> Add(m, AttrUsername, F(op, "data", <<>>))
+    [] op.op = "xoraddr"     -> Add(m, 32, EncXor(F(op, "data", <<>>), F(op, "port", 0), m.tid))
+    [] op.op = "mapped"      -> Add(m, 1, EncMapped(F(op, "data", <<>>), F(op, "port", 0)))
+    [] op.op = "errorcode"   -> Add(m, 9, EncErrorCode(F(op, "code", 0), F(op, "data", <<>>)))
+    [] op.op = "unknown"     -> Add(m, 10, EncUnknown(F(op, "list", <<>>)))
     [] op.op = "writelength" -> WriteLength(m)
     [] op.op = "writetype"   -> WriteType(m)
 
